@@ -9,7 +9,7 @@ PID = "C03"
 MODULE = "Check.C03"
 VERDICT = "verdict_C03"
 CLASS_BITS = {16: "K_yield_forms", 128: "K_direct_parametrize"}
-NCASES = (60, 2000)
+NCASES = (160, 2000)
 shrinkable = False
 RULE = ("generator P (gen/pgen.py): modules over the documented forms; the real analyze_file (rustpython) against the Coq "
         "analyzer model run on CPython's tree of the same text; distinct = distinct tag multiset")
